@@ -316,6 +316,13 @@ def axioms_for(formulas, rounds=2, pair_limit=12, level=2):
                     y, x = t.arg(0), t.arg(1)
                     r = _F1["sqrt"](x * x + y * y)
                     add(z3.And(t > -PI, t <= PI))
+                    add(z3.Implies(y > 0, z3.And(t > 0, t < PI)), 0)
+                    add(z3.Implies(y < 0, z3.And(t < 0, t > -PI)), 0)
+                    add(z3.Implies(z3.And(y == 0, x > 0), t == 0), 0)
+                    add(z3.Implies(z3.And(y == 0, x < 0), t == PI), 0)
+                    add(z3.Implies(x > 0, z3.And(t > -PI / 2, t < PI / 2)))
+                    add(z3.Implies(z3.And(x == 0, y > 0), t == PI / 2))
+                    add(z3.Implies(z3.And(x == 0, y < 0), t == -PI / 2))
                     add(z3.Implies(z3.Or(x != 0, y != 0),
                                    z3.And(r * _F1["cos"](t) == x, r * _F1["sin"](t) == y)))
                 elif nm == "rpow":
